@@ -12,6 +12,7 @@ CONSTANTS
   MaxK = 2
   MaxF = %(maxf)s
   CfgSpace <- %(space)s
+  SimBias = %(simbias)s
 CONSTRAINT Bound
 CHECK_DEADLOCK FALSE
 INVARIANT TypeOK
@@ -36,7 +37,7 @@ TW = 'INVARIANT Twin_Prefix\nINVARIANT Twin_SameEnd\nINVARIANT C08_StopsAsLimit'
 
 
 def w(name, **kw):
-    d = dict(faithful='', runs='"A"', maxval=4, maxiter=3, maxf=1, extra='PROPERTY C09_ObserverStutter')
+    d = dict(simbias='FALSE', faithful='', runs='"A"', maxval=4, maxiter=3, maxf=1, extra='PROPERTY C09_ObserverStutter')
     d.update(kw)
     open(name, 'w').write(TEMPLATE % d)
 
@@ -54,4 +55,4 @@ w('GF_q_twin_obs.cfg', space='QTwinObsCfgs', runs='"A", "B"', maxiter=2, maxval=
 w('GF_twin_hist.cfg', space='TwinHistCfgs', runs='"A", "B", "C"', maxiter=2, maxval=3, extra=TW)
 w('GF_q_twin_hist.cfg', space='QTwinHistCfgs', runs='"A", "B", "C"', maxiter=2, maxval=3, extra=TW)
 w('GF_w_F8.cfg', space='QTwinStopCfgs', runs='"A", "B"', maxiter=2, maxval=3, extra=TW, faithful='"F8"')
-w('GF_sim.cfg', space='SimCfgs', maxiter=5, maxval=5, maxf=2)
+w('GF_sim.cfg', space='SimCfgs', maxiter=5, maxval=5, maxf=2, simbias='TRUE')
